@@ -137,6 +137,7 @@ async fn main() {
                     restarts: true,
                     jumps: false,
                     sparse_regs: false,
+                    param_changes: h % 4 == 1,
                 };
                 let name = format!("c15_{}_{}_{}_{}", args.seed, h, pi, p);
                 let mut g = Gen::new(&name, &cfg).await;
@@ -220,7 +221,7 @@ async fn main() {
                 continue;
             }
             let mut rng = Rng::new(args.seed.wrapping_mul(5_000_011).wrapping_add(h as u64));
-            let cfg = HistoryCfg { n_signers: 3 + h, k: [5u64, 40, 70][h % 3], m: 100, events: 0, with_csd: false, restarts: true, jumps: false, sparse_regs: false };
+            let cfg = HistoryCfg { n_signers: 3 + h, k: [5u64, 40, 70][h % 3], m: 100, events: 0, with_csd: false, restarts: true, jumps: false, sparse_regs: false, param_changes: false };
             let name = format!("c15_{}_msd_{}_{}", args.seed, h, p);
             let mut g = Gen::with_discs(&name, &cfg, &[mithril_common::entities::SignedEntityTypeDiscriminants::MithrilStakeDistribution]).await;
             bootstrap(&mut g, &mut rng).await;
